@@ -163,27 +163,41 @@ func ruleStreamLockTable(c *Ctx, r *Rule) {
 
 // ascendingFromZero: v enumerates 0,1,2,... : φ(0, φ+1) or (φ+1) with φ = φ(-1, φ+1).
 func ascendingFromZero(v ssa.Value) bool {
+	// (φ+1) with φ = φ(-1, φ+1, φ+1, …)
 	if b, ok := v.(*ssa.BinOp); ok && b.Op == token.ADD {
 		if k, ok := constInt(b.Y); ok && k == 1 {
-			if phi, ok := b.X.(*ssa.Phi); ok && len(phi.Edges) == 2 {
-				for i, e := range phi.Edges {
-					if k, ok := constInt(e); ok && k == -1 && phi.Edges[1-i] == ssa.Value(b) {
-						return true
+			if phi, ok := b.X.(*ssa.Phi); ok && len(phi.Edges) >= 2 {
+				init, step := 0, 0
+				for _, e := range phi.Edges {
+					if k, ok := constInt(e); ok && k == -1 {
+						init++
+					} else if e == ssa.Value(b) {
+						step++
+					} else {
+						return false
 					}
 				}
+				return init == 1 && step >= 1
 			}
 		}
 	}
-	if phi, ok := v.(*ssa.Phi); ok && len(phi.Edges) == 2 {
-		for i, e := range phi.Edges {
+	// φ(0, φ+1, …)
+	if phi, ok := v.(*ssa.Phi); ok && len(phi.Edges) >= 2 {
+		init, step := 0, 0
+		for _, e := range phi.Edges {
 			if k, ok := constInt(e); ok && k == 0 {
-				if b, ok := phi.Edges[1-i].(*ssa.BinOp); ok && b.Op == token.ADD && b.X == ssa.Value(phi) {
-					if k, ok := constInt(b.Y); ok && k == 1 {
-						return true
-					}
+				init++
+				continue
+			}
+			if b, ok := e.(*ssa.BinOp); ok && b.Op == token.ADD && b.X == ssa.Value(phi) {
+				if k, ok := constInt(b.Y); ok && k == 1 {
+					step++
+					continue
 				}
 			}
+			return false
 		}
+		return init == 1 && step >= 1
 	}
 	return false
 }
